@@ -123,7 +123,7 @@ func xmlBodyView(v *PkgView) []elemV {
 	return out
 }
 
-var ctors = []string{"AddParagraph", "AddFormattedParagraph", "AddHeadingParagraph", "AddHeadingParagraphWithBookmark", "AddHeadingWithBookmark", "AddTable", "AddPageBreak", "AddImage", "AddListItem", "AddBulletList", "CreateMultiLevelList", "AddFootnote", "AddEndnote", "AddMathFormula", "GenerateTOC"}
+var ctors = []string{"AddParagraph", "AddFormattedParagraph", "AddHeadingParagraph", "AddHeadingParagraphWithBookmark", "AddHeadingWithBookmark", "AddTable", "AddPageBreak", "AddImage", "AddListItem", "AddBulletList", "CreateMultiLevelList", "AddFootnote", "AddEndnote", "AddMathFormula", "GenerateTOC", "AddElementSect"}
 var sectCalls = []string{"SetPageMargins", "SetPageOrientation", "SetPageSize", "AddHeader", "AddFooter", "SetDifferentFirstPage", "GetPageSettings", "SetDocGrid", "AddFooterWithPageNumber"}
 
 func genBodyOp(r *rng) bodyOp {
@@ -196,6 +196,9 @@ func (b *bodyRun) apply(op *bodyOp, tmp string) (ok bool, xmlv []elemV, isSave b
 			d.AddMathFormula("<m:r><m:t>x</m:t></m:r>", op.N%2 == 0)
 		case "GenerateTOC":
 			d.GenerateTOC(nil)
+		case "AddElementSect":
+			// a second (third ...) section-settings element, as the body of an opened multi-section document holds
+			d.Body.AddElement(&document.SectionProperties{})
 		}
 		v := b.view()
 		op.Atoms = nil
